@@ -2,6 +2,7 @@
   C08 — Timing yields exactly the requested timestamps, without drift, or refuses.
 -/
 import NiVerif.Model.Timing
+import NiVerif.Gen.Irregular
 import NiVerif.Props.C20
 
 namespace Props.C08
@@ -327,5 +328,95 @@ theorem irregular_ctor_accepts_iff (elems : List Elem) :
 example : regularTimestamps famDt 100 (some 5) (-3) 2 3 = .ok [99, 96, 93] := by rfl
 example : irregularTimestamps [1, 2, 3, 4, 5] 3 4 = .error .ValueError := by rfl
 example : areMonotonic [1, 1, 2, 2, 1] = false ∧ areMonotonic [3, 3, 2, 2] = true := by decide +kernel
+
+end Props.C08
+
+/-! ### the model's monotonicity scan is the source's loop (generated from `_irregular.py` on every run) -/
+namespace Props.C08
+open Model.Timing
+
+theorem gen_direction_eq (l r : Int) : Gen.Irregular._get_direction l r = direction l r := rfl
+
+/-- the generated loop body, named so that it can be unfolded one iteration at a time -/
+def genBody (ts : List Int) : Nat → Int → Py.Loop Int Bool :=
+  fun (i : Nat) (direction : Int) => (show Py.Loop Int Bool from
+    let comparison := (Gen.Irregular._get_direction (Py.seqAt ts (i - 1)) (Py.seqAt ts i))
+    if comparison = (0 : Int) then .cont direction
+    else if direction = (0 : Int) then
+      let direction := comparison
+      .cont direction
+    else if comparison ≠ direction then .ret false
+    else .cont direction)
+
+theorem gen_unfold (ts : List Int) : Gen.Irregular._are_timestamps_monotonic ts =
+    (match Py.forRange 1 (ts.length - 1) (0 : Int) (genBody ts) with | .ret r => r | .cont _ => true) := rfl
+
+def finish : Py.Loop Int Bool → Bool | .ret r => r | .cont _ => true
+
+theorem forRange_succ {σ ρ : Type} (lo n : Nat) (s : σ) (f : Nat → σ → Py.Loop σ ρ) :
+    Py.forRange lo (n + 1) s f = (match f lo s with | .ret r => .ret r | .cont s' => Py.forRange (lo + 1) n s' f) := rfl
+
+/-- the loop from index `i` on, with accumulator `d`, is the model's recursion over the rest of the list -/
+theorem gen_loop_eq (ts : List Int) : ∀ (n i : Nat) (d : Int), 1 ≤ i → i + n = ts.length →
+    finish (Py.forRange i n d (genBody ts)) = monoLoop d (ts.getD (i - 1) 0) (ts.drop i) := by
+  intro n
+  induction n with
+  | zero =>
+    intro i d _ hi
+    have : ts.drop i = [] := List.drop_eq_nil_of_le (by omega)
+    simp [Py.forRange, this, monoLoop, finish]
+  | succ n ih =>
+    intro i d h1 hi
+    have hlt : i < ts.length := by omega
+    have hdrop : ts.drop i = ts[i] :: ts.drop (i + 1) := (List.drop_eq_getElem_cons hlt)
+    rw [hdrop]
+    have hget : Py.seqAt ts i = ts[i] := by
+      unfold Py.seqAt; rw [List.getD_eq_getElem?_getD, List.getElem?_eq_getElem hlt]; rfl
+    have hnext : ts.getD (i + 1 - 1) 0 = ts[i] := by
+      simp only [Nat.add_sub_cancel]
+      rw [List.getD_eq_getElem?_getD, List.getElem?_eq_getElem hlt]; rfl
+    have ih' := fun d' => ih (i + 1) d' (by omega) (by omega)
+    simp only [hnext] at ih'
+    rw [forRange_succ]
+    unfold monoLoop
+    simp only
+    have hb : genBody ts i d =
+        (if direction (ts.getD (i - 1) 0) ts[i] = 0 then Py.Loop.cont d
+         else if d = 0 then Py.Loop.cont (direction (ts.getD (i - 1) 0) ts[i])
+         else if direction (ts.getD (i - 1) 0) ts[i] ≠ d then Py.Loop.ret false else Py.Loop.cont d) := by
+      unfold genBody
+      simp only [gen_direction_eq, hget]
+      rfl
+    rw [hb]
+    by_cases hc : direction (ts.getD (i - 1) 0) ts[i] = 0
+    · simp only [hc, if_true]
+      exact ih' d
+    · simp only [hc, if_false]
+      by_cases hd : d = 0
+      · simp only [hd, if_true]
+        exact ih' _
+      · simp only [hd, if_false]
+        by_cases hne : direction (ts.getD (i - 1) 0) ts[i] ≠ d
+        · simp only [hne, ne_eq, not_false_eq_true, if_true, finish]
+        · simp only [hne, if_false]
+          exact ih' d
+
+/-- **The hand model's `areMonotonic` is the function the source defines** — so every theorem stated over the model's
+    scan (C08, C09, C10, C20) is a theorem about `_are_timestamps_monotonic` as it is written today. -/
+theorem gen_monotonic_eq_model (ts : List Int) : Gen.Irregular._are_timestamps_monotonic ts = areMonotonic ts := by
+  rw [gen_unfold]
+  cases ts with
+  | nil => simp [Py.forRange, areMonotonic]
+  | cons x xs =>
+    have := gen_loop_eq (x :: xs) ((x :: xs).length - 1) 1 0 (by omega) (by simp; omega)
+    simp only [areMonotonic]
+    rw [show monoLoop 0 x xs = monoLoop 0 ((x :: xs).getD (1 - 1) 0) ((x :: xs).drop 1) from by simp]
+    rw [← this]
+    cases Py.forRange 1 ((x :: xs).length - 1) (0 : Int) (genBody (x :: xs)) <;> rfl
+
+/-- hence the source's scan accepts exactly the non-decreasing or non-increasing sequences -/
+theorem gen_monotonic_iff (ts : List Int) :
+    Gen.Irregular._are_timestamps_monotonic ts = true ↔ (nonDecreasing ts ∨ nonIncreasing ts) := by
+  rw [gen_monotonic_eq_model]; exact mono_iff ts
 
 end Props.C08
